@@ -417,6 +417,20 @@ for NRM in ([1.0, 0.0, 0.0, 0.0, 0.0, 0.0], [1.0, 0.5, 0.0, 0.0, -2.0, 0.0]):
                         if len(got) != len(want) or any(abs(a - b) > 1e-9 for a, b in zip(got, want)): bad[tag] = "hit times %s, expected %s" % (np.round(got, 6).tolist(), np.round(want, 6).tolist())
                     else:
                         if len(got) != len(want) or any(not (np.floor(b) - 1e-9 <= a <= np.floor(b) + 1 + 1e-9) for a, b in zip(got, want)) or got != sorted(got): bad[tag] = "hit times %s, expected one per bracket of %s" % (np.round(got, 6).tolist(), np.round(want, 6).tolist())
+# smooth curve on a NON-UNIFORM grid, cubic interpolation: the hit must lie on the plane and on the curve to interpolation accuracy
+rs = np.random.default_rng(15)
+for NRM in ([1.0, 0.0, 0.0, 0.0, 0.0, 0.0], [1.0, 0.5, 0.0, 0.0, -2.0, 0.0]):
+    nrm = np.array(NRM)
+    for R in (0, 1):
+        t = np.cumsum(np.concatenate([[0.0], 0.04 + 0.04 * rs.random(160)]))
+        curve = lambda tt: np.stack([np.sin(tt) + 0.3, 0.4 * np.cos(1.3 * tt), 0.1 * tt, 0.2 * np.sin(0.7 * tt + 1.0), 0.05 * np.cos(tt), 0.3 * np.sin(0.5 * tt)], axis=-1)
+        X = curve(t); off = 0.25
+        hits = be.detect_on_trajectory(t, X, normal=nrm, offset=off, plane_coords=("y", "vy"), interp_kind="cubic", segment_refine=R, tol_on_surface=1e-12, dedup_time_tol=1e-9, dedup_point_tol=1e-12, max_hits_per_traj=None, direction=None)
+        tag = "smooth_nonuniform_cubic_%s_refine%d" % ("axis" if NRM[1] == 0 else "oblique", R)
+        if not hits: bad[tag] = "no hits"; continue
+        worst_plane = max(abs(float(np.dot(nrm, np.asarray(h.state, dtype=float)) - off)) for h in hits)
+        worst_curve = max(float(np.max(np.abs(np.asarray(h.state, dtype=float) - curve(np.array(float(h.time)))))) for h in hits)
+        if worst_plane > 3e-4 or worst_curve > 3e-4: bad[tag] = "hit states are %.2e off the plane and %.2e off the curve (grid spacing 0.04..0.08)" % (worst_plane, worst_curve)
 _verdict(bool(bad), **{k: bad[k] for k in list(bad)[:6]})
 '''
 
